@@ -14,12 +14,14 @@
 EXTENDS Naturals, Integers, Sequences, FiniteSets, TLC, Json, IOUtils
 
 Traces == JsonDeserialize(IOEnv.TRACE_FILE)
-VARIABLES tid, l, held, verdict, drift, done
-vars == <<tid, l, held, verdict, drift, done>>
+VARIABLES tid, l, held, saved, verdict, drift, done
+vars == <<tid, l, held, saved, verdict, drift, done>>
+\* saved: what the pool held when it was last pickled (save / close); "staleopen" = the pool is opened from that pickle
+\* after it was used further without being saved again: it makes available the batches it had then
 T == Traces[tid]
 SeqSet(s) == {s[i] : i \in 1..Len(s)}
 
-Init == /\ tid \in 1..Len(Traces) /\ l = 1 /\ held = [n \in SeqSet(T.stored) |-> {}]
+Init == /\ tid \in 1..Len(Traces) /\ l = 1 /\ held = [n \in SeqSet(T.stored) |-> {}] /\ saved = [n \in SeqSet(T.stored) |-> {}]
         /\ verdict = "ok" /\ drift = "" /\ done = FALSE
 
 JudgeP(e) ==
@@ -46,12 +48,14 @@ Apply(e) ==
   CASE e.a = "run" /\ e.raised = "" -> [n \in DOMAIN held |-> held[n] \cup 0..(e.k - 1)]
     [] e.a = "remove" -> [n \in DOMAIN held \ {e.n} |-> held[n]]
     [] e.a = "addstore" -> [n \in DOMAIN held \cup {e.n} |-> IF n = e.n THEN {} ELSE held[n]]
+    [] e.a = "staleopen" /\ e.raised = "" -> [n \in DOMAIN held |-> IF n \in DOMAIN saved THEN saved[n] ELSE {}]
     [] OTHER -> held
 
 Step == /\ ~done
-        /\ IF l > Len(T.events) THEN done' = TRUE /\ UNCHANGED <<tid, l, held, verdict, drift>>
+        /\ IF l > Len(T.events) THEN done' = TRUE /\ UNCHANGED <<tid, l, held, saved, verdict, drift>>
            ELSE LET e == T.events[l] j == JudgeP(e) IN
                 /\ verdict' = j /\ done' = (j # "ok") /\ l' = l + 1 /\ UNCHANGED tid
+                /\ saved' = IF e.a \in {"save", "reopen"} /\ e.raised = "" THEN held ELSE saved
                 /\ drift' = IF drift # "" THEN drift ELSE JudgeM(e)
                 /\ held' = Apply(e)
 Spec == Init /\ [][Step]_vars
